@@ -82,6 +82,9 @@ def check_case(case, shard):
         except E.FailedMinimization:
             shard.skip("fit reported failure")
             continue
+        except Exception as e:
+            shard.violate(f"C06/{stat}:raised", f"{stat}(mu={mu}) raised {type(e).__name__}: {str(e)[:200]}; bounds_poi={bounds[poi]} data={case['data']} backend={case['backend']}", dict(case, stat=stat), "case_rules")
+            continue
         v = float(to_np(val))
         cond = [float(x) for x in to_np(mubhathat)]
         free = [float(x) for x in to_np(muhatbhat)]
@@ -137,6 +140,8 @@ def check_case(case, shard):
                     shard.maximum("stat_at_returned_bestfit", v0)
             except E.FailedMinimization:
                 shard.skip("fit reported failure")
+            except Exception as e:
+                shard.violate(f"C06/{stat}:raised", f"{stat}(mu=muhat={muhat!r}) raised {type(e).__name__}: {str(e)[:200]}; bounds_poi={bounds[poi]}", c, "zero_at_bestfit")
         if branch in ("zeroed", "at-bound", "positive"):
             shard.nontrivial(case["kind"], [len(ch["samples"][0]["data"]) for ch in spec["channels"]], case["data"], mu, stat, branch, case["backend"])
 
@@ -166,7 +171,7 @@ def make_case(rng, backend, kind):
         data = [gen._round(x, 3) for x in rates]  # Asimov-like non-integers
     else:
         data = [float(gen.poisson_draw(rng, x)) for x in rates]
-    mu = rng.choice([0.0, 0.3, 1.0, 1.0, 2.0, 4.0, gen._round(rng.uniform(0, 6), 2)])
+    mu = rng.choice([0.0, 0.3, 1.0, 1.0, 2.0, 4.0, gen._round(rng.uniform(0, 6), 2), "neg"])
     # keep every expectation positive for negative mu
     minratio = 1e9
     for ch in spec["channels"]:
@@ -176,6 +181,9 @@ def make_case(rng, backend, kind):
             if s_ > 0:
                 minratio = min(minratio, b_ / s_)
     neg_lo = -gen._round(min(0.4 * minratio, 4.0), 2) if minratio > 0.1 else 0.0
+    if mu == "neg":
+        # a tested value below zero (only reachable by the statistics that allow a negative POI bound)
+        mu = gen._round(0.5 * neg_lo, 3) if neg_lo < 0 else 0.0
     return {"kind": kind, "spec": spec, "data": data, "mu": mu, "neg_lo": neg_lo, "hi": 10.0, "backend": backend, "truth": truth, "q0_neg": rng.random() < 0.6}
 
 
